@@ -7,3 +7,6 @@ package transport
 func verifOverrideCerts(_ *Client, leaf, intermediate []byte) ([]byte, []byte) {
 	return leaf, intermediate
 }
+
+// verifClientClockSkew is only meaningful under the "verif" build tag.
+func verifClientClockSkew() int64 { return 0 }
